@@ -79,12 +79,28 @@ def exception_fidelity(res):
     return n, fails
 
 
+def real_slice(res, pid, kind, n_quick=2, n_thorough=10):
+    """a few runs with real processes / real zmq / a real interpreter exit (harness/real.py)"""
+    import sys
+    sys.path.insert(0, os.path.join(core.ROOT, "harness"))
+    import real
+    outs = real.run_slice(kind, res.rng, n_quick if res.tier == "quick" else n_thorough)
+    res.cov["real_process_cases"] = {"kind": kind, "ok": sum(1 for o in outs if o["status"] == "ok"),
+                                     "inconclusive": [o for o in outs if o["status"] == "inconclusive"][:2],
+                                     "failed": sum(1 for o in outs if o["status"] == "fail")}
+    bad = [o for o in outs if o["status"] == "fail"]
+    if bad:
+        res.violation("real-process run violates the property", {"kind": "real-process", "case": bad[0], "count": len(bad)})
+
+
 def run(res, pid):
     t = TABLE[pid]
     ready = os.path.exists(os.path.join(core.TH, "Props", pid + ".v"))
     cone = [f for f in t["cone"] if os.path.exists(os.path.join(core.TH, f))]
     concur.concurrent_check(res, pid, cone, t["kinds"], t["n"][0], t["n"][1], t["oracle"], known, RULE, ASSUME,
                             props_ready=ready)
+    if pid in ("C01", "C12"):
+        real_slice(res, pid, {"C01": "byvalue", "C12": "ghost"}[pid])
     if pid == "C04":
         n, fails = exception_fidelity(res)
         res.cov["exception_fidelity_cases"] = n
